@@ -27,6 +27,7 @@ type vConn struct {
 	timeout time.Duration
 	encode  bool // run the real Len/Encode on every sent packet
 	encodeErrors int
+	onSend  func(pkt packet.Generic) // monitor, called with the lock held after a successful send
 }
 
 func newVConn(faults bool) *vConn {
@@ -57,6 +58,9 @@ func (c *vConn) Send(pkt packet.Generic, async bool) error {
 		}
 	}
 	c.sent = append(c.sent, pkt)
+	if c.onSend != nil {
+		c.onSend(pkt)
+	}
 	return nil
 }
 
